@@ -368,6 +368,12 @@ def guards(chk, cls, active, released, roles):
             if len(augs) != 1 or augs[0][2] != "-" or augs[0][3] != cd:
                 chk.bad(rule, fi.qual, "releasing a child does not reduce the excess by that child's demand (%s)" % [(e[2], show(e[3])) for e in augs], node=fi.node, stmt="excess-update")
                 ok = False
+            else:
+                i_aug = o.path.events.index(augs[0])
+                i_rel = o.path.events.index(released_now[0])
+                if i_rel < i_aug:
+                    chk.bad(rule, fi.qual, "the excess is reduced by the child's demand AFTER the child has been released: releasing sets that demand to 0, so the excess is never used up and every further child that fits the initial excess is released as well", node=fi.node, stmt="excess-update-after-release")
+                    ok = False
     want = set()
     for a in "<=>":
         for b in "<=>":
